@@ -106,11 +106,11 @@ PROPS.update({
 
 
 # ---- properties decided (in part) from the mutator / Display / matches contracts --------------------------------
-LID_MUT = [V('langid', r'::LanguageIdentifier::(from_parts|set_variants|clear_variants|has_variant|into_parts)$'),
+LID_MUT = [V('langid', r'::LanguageIdentifier::(from_parts|set_variants|clear_variants|has_variant|variants|into_parts)$'),
            V('langid', r'::lemma_(sorted_dedup_variants|variants_\w+)$')]
-LOC_MUT = [V('locale', r'::UnicodeExtensionList::(is_empty|set_keyword|remove_keyword|clear_keywords|clear_attributes|has_attribute|set_attribute|remove_attribute)$'),
-           V('locale', r'::TransformExtensionList::(is_empty|tlang|set_tlang|clear_tlang|set_tfield|remove_tfield|clear_tfields)$'),
-           V('locale', r'::PrivateExtensionList::(is_empty|clear_tags|has_tag|add_tag|remove_tag)$'),
+LOC_MUT = [V('locale', r'::UnicodeExtensionList::(is_empty|keyword|attributes|set_keyword|remove_keyword|clear_keywords|clear_attributes|has_attribute|set_attribute|remove_attribute)$'),
+           V('locale', r'::TransformExtensionList::(is_empty|tlang|tfield|set_tlang|clear_tlang|set_tfield|remove_tfield|clear_tfields)$'),
+           V('locale', r'::PrivateExtensionList::(is_empty|tags|clear_tags|has_tag|add_tag|remove_tag)$'),
            V('locale', r'::ExtensionsMap::is_empty$'),
            V('locale', r'::(unicode::lemma_\w+|vspec::lemma_(kv_wf_\w+|fmc_utype|insert_multiset|map_values_multiset|texts_\w+|strict_sorted_\w+|weak_sorted_\w+|sorted_\w+|tiny_text\w*|lower_props))$')]
 LID_DISPLAY = [V('langid', r'::(Language|Script|Region|Variant|LanguageIdentifier)::fmt$'), V('langid', r'::lemma_dash_join_push$'),
@@ -298,7 +298,7 @@ B_INV = B('inv', 'structured locales written two ways: 4 heads x variant subsets
                  '{ca-buddhist,nu,co-phonebk-trad} x tlang {none,es-ar} x tfield subsets {h0-hybrid,m0-names} x optional -x-a-b; all permutations, one duplicated element, '
                  'both -u-/-t- orders, 4 case/separator masks')
 B_MUT = B('mut', 'every sequence of <= 3 of 53 mutator calls (valid, boundary and invalid arguments) on 3 start values, every getter / is_empty / has_* / to_string / re-parse '
-                 'compared with a set / multiset / map model after every step (covers the iterator-returning getters, which are outside the Verus contracts)')
+                 'compared with a set / multiset / map model after every step (the only cover for keyword_keys / tfield_keys, which are outside the Verus contracts)')
 B_FP = B('fromparts', 'from_parts / into_parts of LanguageIdentifier and Locale for every variant list of length <= 3 over {macos,valencia,1996} (any order, duplicates), 2 heads, '
                       'with and without extensions (the Locale extension string is re-parsed as an ExtensionsMap)')
 LID_RT = [V('langid', r'::vspec::lemma_(first_sep_prefix|dash_join_front|split_head_join|dash_join_concat|opt_dash_join|lid_ser_is_join|alnum_no_sep|alpha_is_alnum|und_props|'
